@@ -6,17 +6,18 @@ The theorems below are cited by Props/C01, C06, C07, C10 (they share one proof).
 namespace Typstyle
 open Pretty
 
-/-- Whatever the printer returns for an expression of the fragment renders — at every width `w` and
+/-- (`NM ctx`: the context is not math mode — inside equations a call's arguments are laid out by other
+code, not covered yet.)  Whatever the printer returns for an expression of the fragment renders — at every width `w` and
 indent unit `u` — to a layout whose code tokens, comments, prose, literals and verbatim text are
 exactly those of the tree, in order. -/
-theorem routeM_expr (e : Env) (fuel : Nat) (ctx : Ctx) (n : ANode) (hx : isExpr n = true) (hq : inFrag n = true)
+theorem routeM_expr (e : Env) (fuel : Nat) (ctx : Ctx) (hctx : NM ctx) (n : ANode) (hx : isExpr n = true) (hq : inFrag n = true)
     (d : Twin.Doc) (k k' : St) (h : ((knot e fuel).expr ctx n).run k = .ok (d, k')) (u w : Nat) :
     tokText (best w 0 [⟨0, .brk, d.fam u⟩]) = (specToks n).toList ∧
     cmtText (best w 0 [⟨0, .brk, d.fam u⟩]) = (specCmts n).toList ∧
     proseText (best w 0 [⟨0, .brk, d.fam u⟩]) = (specProse n).toList ∧
     litText (best w 0 [⟨0, .brk, d.fam u⟩]) = (specLit n).toList ∧
     verbText (best w 0 [⟨0, .brk, d.fam u⟩]) = (specVerb n).toList := by
-  have hc := (knot_frag e fuel).expr ctx n hx hq k d k' h
+  have hc := (knot_frag e fuel).expr ctx n hctx hx hq k d k' h
   obtain ⟨hg, hs⟩ := hc
   have lay := pretty_lay w (d.fam u)
   have em := fun c => d.emits hg u c .brk _ lay
@@ -29,12 +30,12 @@ theorem routeM_expr (e : Env) (fuel : Nat) (ctx : Ctx) (n : ANode) (hx : isExpr 
   · show streamText .verb _ = _; rw [em .verb, hs' .verb]; rfl
 
 /-- The same for every consistent layout (not only the renderer's choice). -/
-theorem routeM_expr_all_layouts (e : Env) (fuel : Nat) (ctx : Ctx) (n : ANode) (hx : isExpr n = true) (hq : inFrag n = true)
+theorem routeM_expr_all_layouts (e : Env) (fuel : Nat) (ctx : Ctx) (hctx : NM ctx) (n : ANode) (hx : isExpr n = true) (hq : inFrag n = true)
     (d : Twin.Doc) (k k' : St) (h : ((knot e fuel).expr ctx n).run k = .ok (d, k')) (u : Nat) (m : Mode) (xs : List Atom)
     (hl : Lay m (d.fam u) xs) :
     tokText xs = (specToks n).toList ∧ cmtText xs = (specCmts n).toList ∧ proseText xs = (specProse n).toList ∧
     litText xs = (specLit n).toList ∧ verbText xs = (specVerb n).toList := by
-  have hc := (knot_frag e fuel).expr ctx n hx hq k d k' h
+  have hc := (knot_frag e fuel).expr ctx n hctx hx hq k d k' h
   obtain ⟨hg, hs⟩ := hc
   have em := fun c => d.emits hg u c m xs hl
   have hs' : ∀ c, (d.ss.get c) = (specAll n).get c := fun c => by rw [hs]
@@ -60,7 +61,7 @@ theorem routeM_document (e : Env) (root : Node) (hk : (prepare root).kind = .mar
   · rename_i d' s' hrun
     simp only [Except.ok.injEq, Prod.mk.injEq] at h
     obtain ⟨rfl, _⟩ := h
-    have hc := (knot_frag e _).markup {} (prepare root) .document hk hq _ _ _ hrun
+    have hc := (knot_frag e _).markup {} (prepare root) .document (by intro h; cases h) hk hq _ _ _ hrun
     obtain ⟨hg, hs⟩ := hc
     unfold tokensCertified commentsCertified verbatimCertified proseCertified literalsCertified
       Twin.Doc.toks Twin.Doc.cmts Twin.Doc.verbs Twin.Doc.prose Twin.Doc.lits
